@@ -1021,7 +1021,13 @@ class UTPM(Ring, RawAlgorithmsMixIn):
         else:
             xbar, = out
 
-        xbar.data.real = ybar.data
+        if numpy.may_share_memory(xbar.data, ybar.data):
+            # y is a view of the real part of x and ybar a view of xbar: nothing to move
+            xbar.data.real = ybar.data
+        else:
+            # real() of a real-valued x returns x.data itself as a value of its own, ybar is a
+            # separate array: accumulate, x may have other consumers
+            xbar.data.real += ybar.data
 
     @classmethod
     def imag(cls, x):
@@ -1038,7 +1044,9 @@ class UTPM(Ring, RawAlgorithmsMixIn):
 
         else:
             xbar, = out
-        xbar.data.imag -= ybar.data
+        if numpy.iscomplexobj(xbar.data):
+            # (the imaginary part of a real-valued x is a constant zero: no adjoint)
+            xbar.data.imag -= ybar.data
 
 
     @classmethod
@@ -2678,7 +2686,7 @@ class UTPM(Ring, RawAlgorithmsMixIn):
             out = (x.zeros_like(),)
 
         xbar, = out
-        Nx = xbar.shape[0]
+        Nx = min(xbar.shape[:2])    # the diagonal of a tall or wide matrix
         for nx in range(Nx):
             xbar[nx,nx] += ybar
 
@@ -3242,8 +3250,9 @@ class UTPM(Ring, RawAlgorithmsMixIn):
     @classmethod
     def pb_tile(cls, Bbar, A, reps, B, out = None):
 
-        if(isinstance(reps, int)):
-            reps=[reps]
+        if numpy.ndim(reps) == 0:
+            # a Python or a NumPy integer
+            reps=[int(reps)]
 
         d = len(reps)
 
